@@ -118,6 +118,36 @@ func newListFlow(c *Ctx) *listFlow {
 							continue
 						}
 						callee := x.Common().StaticCallee()
+						if callee == nil && !x.Common().IsInvoke() {
+							// a call through a function value with a finite set of known targets
+							for _, t := range funcTargets(c, x.Common().Value, 0) {
+								if t.Blocks == nil {
+									continue
+								}
+								if t.Synthetic != "" && t.Pkg == nil && t.Object() != nil && t.Prog != nil {
+									// the wrapper behind a bound method value returns what the method returns
+									if m, ok := t.Object().(*types.Func); ok {
+										if real := t.Prog.FuncValue(m); real != nil && real != t {
+											if isListPtr(x.Type()) && lf.add(lf.key(x), lf.pts["ret:"+fname(real)]) {
+												changed = true
+											}
+											continue
+										}
+									}
+								}
+								if len(t.Params) == len(x.Common().Args) {
+									for i, arg := range x.Common().Args {
+										if isListPtr(arg.Type()) && lf.add(lf.key(t.Params[i]), lf.pts[lf.key(arg)]) {
+											changed = true
+										}
+									}
+								}
+								if isListPtr(x.Type()) && lf.add(lf.key(x), lf.pts["ret:"+fname(t)]) {
+									changed = true
+								}
+							}
+							continue
+						}
 						if callee == nil || callee.Blocks == nil {
 							continue
 						}
